@@ -284,7 +284,12 @@ func ruleSingleDispatch(c *Ctx, rule string) {
 			src := desc(p0.split.Call.Args[0])
 			sepOK := desc(p0.split.Call.Args[1]) == "\"/\""
 			nOK, _ := constInt(p0.split.Call.Args[2])
-			fromFrame := strings.Contains(src, "param:frame.MethodName")
+			fromFrame := false
+			if r0, ch0 := fieldChain(stripTrimPrefix(p0.split.Call.Args[0])); len(ch0) == 1 && ch0[0] == "MethodName" {
+				if pp, isP := origin(r0).(*ssa.Parameter); isP && pp.Parent() == a.Create {
+					fromFrame = true
+				}
+			}
 			c.check(fromFrame && sepOK && nOK == 2, rule, w.Short(a.Create)+": split of this frame's method name", w.At(p0.split), "SplitN("+src+", \"/\", 2)", "the names are split from "+src+" (separator "+desc(p0.split.Call.Args[1])+", n="+fmt.Sprint(nOK)+"), expected this frame's MethodName split once at '/'")
 			// len(parts) == 2 guard before use
 			g := false
@@ -638,7 +643,7 @@ func (c *Ctx) guaranteedClosed(fr FieldRef) (bool, string) {
 		if fn == a.ClientFinish {
 			return true, "closed by the client finishing function"
 		}
-		if fn.Parent() != nil && fn.Parent().Name() == "close" {
+		if fn.Parent() != nil && fn.Parent().Name() == w.mName("close") {
 			once := false
 			allInstrs(fn.Parent(), func(in ssa.Instruction) {
 				if ci, ok := in.(*ssa.Call); ok && calleeName(ci) == "(*sync.Once).Do" {
@@ -754,7 +759,7 @@ func ruleClosePathsReachCarrier(c *Ctx, rule string) {
 	w := c.W
 	lf := w.Locks()
 	// forward tear-down closure: the function literal passed as tearDown in (*pendingChannel).Start
-	start := w.Func("(*pendingChannel).Start")
+	start := w.roleFunc("(*pendingChannel).Start")
 	okTD := false
 	if start != nil {
 		for _, af := range start.AnonFuncs {
@@ -767,7 +772,7 @@ func ruleClosePathsReachCarrier(c *Ctx, rule string) {
 	}
 	c.check(okTD, rule, "forward tunnel tear-down half-closes the carrier", posOf(w, start), "tearDown closure calls CloseSend", "the forward channel's tear-down callback no longer half-closes the carrier stream: Close() would not end the tunnel on the server")
 	stop := w.Func("(*ReverseTunnelServer).Stop")
-	add := w.Func("(*ReverseTunnelServer).addInstance")
+	add := w.roleFunc("(*ReverseTunnelServer).addInstance")
 	serve := w.Func("(*ReverseTunnelServer).Serve")
 	if stop == nil || add == nil || serve == nil {
 		c.fail(rule, "Stop / addInstance / Serve", "-", "not found")
@@ -806,7 +811,7 @@ func ruleClosePathsReachCarrier(c *Ctx, rule string) {
 		var whyG string
 		for _, f := range factsAt(cs) {
 			x, op, y, ok := cmpFact(f)
-			if !ok || !isFieldLoad(x, FieldRef{"ReverseTunnelServer", "state"}) {
+			if !ok || !isFieldLoad(x, FieldRef{"ReverseTunnelServer", w.Roles().RTSState}) {
 				continue
 			}
 			k, isK := constInt(y)
@@ -816,7 +821,7 @@ func ruleClosePathsReachCarrier(c *Ctx, rule string) {
 		}
 		c.check(okGuard, rule, "Stop acts unless already closed", w.At(cs), "the half-close loop is skipped only when state == closed", "Stop half-closes the tunnels only when "+whyG+": after GracefulStop (state closing) Stop would skip the half-close and then wait forever for Serve calls that nothing ends")
 	}
-	stF := FieldRef{"ReverseTunnelServer", "state"}
+	stF := FieldRef{"ReverseTunnelServer", w.Roles().RTSState}
 	okState := false
 	for _, st := range storesToField(stop, stF) {
 		if k, ok := constInt(st.Val); ok && k == 2 {
@@ -865,7 +870,7 @@ func ruleClosePathsReachCarrier(c *Ctx, rule string) {
 			if staticCallee(ci) == add {
 				addCall = ci
 			}
-			if f := staticCallee(ci); f != nil && f.Name() == "serveTunnel" {
+			if w.isRoleCall(ci, "serveTunnel") {
 				serveCall = ci
 			}
 		}
@@ -967,7 +972,7 @@ func ruleShutdownFlags(c *Ctx, rule string) {
 	c.rule(rule, "the shutdown entry points set exactly what the refusal predicates read: InitiateShutdown stores true into the flag whose Load is the forward path's predicate; GracefulStop and Stop set states for which the reverse path's predicate (state >= closing) is true")
 	w := c.W
 	is := w.Func("(*TunnelServiceHandler).InitiateShutdown")
-	ot := w.Func("(*TunnelServiceHandler).openTunnel")
+	ot := w.roleFunc("(*TunnelServiceHandler).openTunnel")
 	if is == nil || ot == nil {
 		c.fail(rule, "InitiateShutdown / openTunnel", "-", "not found")
 	} else {
@@ -987,7 +992,7 @@ func ruleShutdownFlags(c *Ctx, rule string) {
 			if !ok {
 				return
 			}
-			if f := staticCallee(call); f == nil || f.Name() != "serveTunnel" {
+			if !w.isRoleCall(call, "serveTunnel") {
 				return
 			}
 			last := call.Call.Args[len(call.Call.Args)-1]
@@ -1001,9 +1006,9 @@ func ruleShutdownFlags(c *Ctx, rule string) {
 		})
 		c.check(okPred, rule, "forward tunnels consult that flag", posOf(w, ot), "serveTunnel(…, "+flag.String()+".Load)", "the forward path's shutting-down predicate is not the Load of the flag InitiateShutdown sets: InitiateShutdown has no effect")
 	}
-	isc := w.Func("(*ReverseTunnelServer).isClosing")
+	isc := w.roleFunc("(*ReverseTunnelServer).isClosing")
 	serve := w.Func("(*ReverseTunnelServer).Serve")
-	stF := FieldRef{"ReverseTunnelServer", "state"}
+	stF := FieldRef{"ReverseTunnelServer", w.Roles().RTSState}
 	if isc == nil || serve == nil {
 		c.fail(rule, "isClosing / Serve", "-", "not found")
 		return
@@ -1022,12 +1027,18 @@ func ruleShutdownFlags(c *Ctx, rule string) {
 		if !ok {
 			return
 		}
-		if f := staticCallee(call); f == nil || f.Name() != "serveTunnel" {
+		if !w.isRoleCall(call, "serveTunnel") {
 			return
 		}
 		last := call.Call.Args[len(call.Call.Args)-1]
-		if mc, ok := last.(*ssa.MakeClosure); ok && strings.HasPrefix(mc.Fn.Name(), "isClosing") {
-			okServe = true
+		if mc, ok := last.(*ssa.MakeClosure); ok {
+			if bf, isF := mc.Fn.(*ssa.Function); isF {
+				allInstrs(bf, func(x ssa.Instruction) {
+					if ci, isC := x.(ssa.CallInstruction); isC && w.sameFn(staticCallee(ci), isc) {
+						okServe = true
+					}
+				})
+			}
 		}
 	})
 	c.check(okServe, rule, "reverse tunnels consult that predicate", posOf(w, serve), "serveTunnel(…, s.isClosing)", "Serve does not pass the isClosing predicate to the tunnel server")
@@ -1219,11 +1230,11 @@ func ruleStreamCtxCancelled(c *Ctx, rule string) {
 			}
 			st := storesInto(al)
 			var ctxV, cancelV ssa.Value
-			for name, v := range st {
+			for _, v := range st {
 				if isCancelFunc(v.Type()) {
 					cancelV = v
 				}
-				if name == "ctx" {
+				if strings.HasSuffix(types.TypeString(v.Type(), nil), "context.Context") {
 					ctxV = v
 				}
 			}
@@ -1345,4 +1356,21 @@ func ruleCancelEmptiesQueue(c *Ctx, rule string) {
 	if n == 0 {
 		c.ok(rule, "no run-time writes to package-level variables", "-", "all globals are written only during package initialisation")
 	}
+}
+
+// stripTrimPrefix: strings.TrimPrefix(x, ...) -> x (the method name may be normalised before it is split).
+func stripTrimPrefix(v ssa.Value) ssa.Value {
+	for i := 0; i < 3; i++ {
+		call, ok := origin(v).(*ssa.Call)
+		if !ok {
+			return v
+		}
+		switch calleeName(call) {
+		case "strings.TrimPrefix", "strings.TrimLeft", "strings.TrimSpace":
+			v = call.Call.Args[0]
+		default:
+			return v
+		}
+	}
+	return v
 }
